@@ -453,6 +453,21 @@ fn batch(rng: &mut Rng, pool: &[String], allow_empty: bool) -> Vec<String> {
 
 fn defective_sub(rng: &mut Rng, src: &str, n: usize) -> (String, String, SubErr) {
     let good_tgt = format!("::t::R{n}");
+    // rarer shapes of the same documented defects
+    if rng.chance(1, 3) {
+        return match rng.below(10) {
+            0 => (format!("{src}<::A>"), good_tgt, SubErr::InvalidFromType),
+            1 => (format!("{src}<A, ::B>"), good_tgt, SubErr::InvalidFromType),
+            2 => (format!("{src}<&'static A>"), good_tgt, SubErr::InvalidFromType),
+            3 => (format!("{src}<<A as X>::Y>"), good_tgt, SubErr::InvalidFromType),
+            4 => (format!("{src}<(A)>"), good_tgt, SubErr::InvalidFromType),
+            5 => (format!("{src}<A, B, 3>"), good_tgt, SubErr::InvalidFromType),
+            6 => (src.into(), format!("::t::R{n}<&'static A>"), SubErr::InvalidToType),
+            7 => (src.into(), format!("::t::R{n}<A, fn()>"), SubErr::InvalidToType),
+            8 => (src.into(), format!("::t::R{n}<_>"), SubErr::InvalidToType),
+            _ => (src.into(), format!("crate::t::R{n}(A) -> B"), SubErr::ExpectedAngleBracketGenerics),
+        };
+    }
     match rng.below(14) {
         0 => (src.into(), format!("t::R{n}"), SubErr::ExpectedAbsolutePath),
         1 => (src.into(), format!("self::R{n}"), SubErr::ExpectedAbsolutePath),
